@@ -31,6 +31,7 @@ func main() {
 		variant  = flag.String("variant", "", "internal: run one self-test variant (prop/index or prop/base)")
 		warm     = flag.Bool("warm", false, "load /repo once to warm the go build cache (used by setup_cmd)")
 		manifest = flag.Bool("manifest", false, "regenerate MANIFEST.json from the rule registry")
+		describeFlag = flag.Bool("describe", false, "print the per-property section of DESIGN.md (markdown) from the rule registry and a live run")
 	)
 	flag.Parse()
 	if *tier == "" {
@@ -65,6 +66,9 @@ func main() {
 			fmt.Printf("warm-up: %d packages, %d files, %d functions, %s\n", len(p.Pkgs), p.NFiles, p.NFuncs, p.Toolchain)
 		}
 		return
+	}
+	if *describeFlag {
+		os.Exit(describe(*repo))
 	}
 	if *manifest {
 		if err := writeManifest(*verif); err != nil {
